@@ -196,6 +196,9 @@ func (e *sbEngine) drain() {
 		}
 		if e.settle() {
 			time.Sleep(300 * time.Millisecond) // reschedule delay and expiry retries of the scheduler (virtual time)
+			if e.c.Layout > 0 {
+				time.Sleep(5500 * time.Millisecond) // one VRAM-recovery wait of the completed loop (runner spanning GPUs)
+			}
 			e.settle()
 		}
 		if e.violated() {
@@ -216,6 +219,9 @@ func (e *sbEngine) drain() {
 	}
 	e.settle()
 	time.Sleep(time.Second)
+	if e.c.Layout > 0 {
+		time.Sleep(40 * time.Second) // up to 5 s of VRAM-recovery wait per runner that spans GPUs, one after the other
+	}
 	if !e.settle() {
 		e.drainIncomplete = true
 		return
@@ -272,8 +278,11 @@ func sbRun(t *testing.T, c sbCase, prop string) (info sbInfo, viol []sbViolation
 	setenv("OLLAMA_NUM_PARALLEL", map[bool]string{true: fmt.Sprint(c.NumParallel), false: ""}[c.NumParallel > 0])
 	setenv("OLLAMA_MAX_QUEUE", fmt.Sprint(c.MaxQueue))
 	setenv("OLLAMA_KEEP_ALIVE", sbKeepEnv[c.KeepAlive%len(sbKeepEnv)])
-	setenv("OLLAMA_SCHED_SPREAD", "")
+	setenv("OLLAMA_SCHED_SPREAD", map[bool]string{true: "1", false: ""}[c.Layout == 2])
 	setenv("OLLAMA_GPU_OVERHEAD", "")
+	if ov := sbOverhead[c.Overhead%len(sbOverhead)]; ov > 0 && c.Inventory > 0 {
+		setenv("OLLAMA_GPU_OVERHEAD", fmt.Sprint(uint64(float64(sbFiles.need)*ov)))
+	}
 	setenv("OLLAMA_CONTEXT_LENGTH", "")
 
 	e := &sbEngine{c: c, flags: map[string]bool{}, prop: prop}
@@ -281,6 +290,12 @@ func sbRun(t *testing.T, c sbCase, prop string) (info sbInfo, viol []sbViolation
 	room := uint64(float64(sbFiles.need) * sbRoom[c.Room%len(sbRoom)])
 	for g := 0; g < c.Inventory; g++ {
 		gi := discover.GpuInfo{Library: "metal", Variant: fmt.Sprintf("v%d", g), ID: fmt.Sprint(g)}
+		if c.Layout > 0 {
+			// one library: a model that fits on no single GPU may be spread over all of them. A runner on more than
+			// one GPU makes the scheduler call the real discover.GetGPUInfo while unloading (waitForVRAMRecovery):
+			// the unload then takes 0.25-5 s of virtual time depending on the machine's real free memory.
+			gi.Variant = "v0"
+		}
 		gi.TotalMemory, gi.FreeMemory = room, room
 		e.inv = append(e.inv, gi)
 	}
